@@ -38,6 +38,19 @@ def enc_line(l):
             t = tok(p)
             out.append(t if t is not None else int(p))
         return out
+    if w == 'FL':
+        # FL outer | c:v ... | idx:off,off ...
+        parts = l.split('|')
+        out = [8, int(parts[0].split()[1])]
+        for e in parts[1].split():
+            c, v = e.split(':')
+            out += [int(c), int(v)]
+        out.append(-1)
+        for e in parts[2].split():
+            i, offs = e.split(':')
+            offs = [int(x) for x in offs.split(',')]
+            out += [int(i), len(offs)] + offs
+        return out
     return None
 
 def tagc(t):
